@@ -217,7 +217,8 @@ def run(ctx):
     nrich = 40 if q else 600
     for i in range(nrich):
         g = gendefs.DefGen(rng).build()
-        route = [("obj",), ("xml", "prefix", False, False), ("xml", "default", True, True), ("xml", "none", False, False)][i % 4]
+        route = [("obj",), ("xml", "prefix", False, False), ("xml", "default", True, True), ("xml", "none", False, False), ("obj", "rev"),
+                 ("obj", "shared")][i % 6]
         try:
             dobj = xdoc.make(g.d, route)
             hist, docs, probs = cycles(dobj)
